@@ -45,14 +45,20 @@ Proof. rewrite nat_enc_length. unfold nat_len. repeat match goal with |- context
 
 Lemma dur_roundtrip d : dur_wf d -> dur_of_ms (ms_of d) = d.
 Proof.
-  intros (H0 & Hm & Hb). unfold dur_of_ms, ms_of, two64z, two63z in *.
-  assert (Hq : Z.quot d 1000000 = (d / 1000000)%Z) by (apply Z.quot_div_nonneg; lia).
+  intros (Hm & Hb). unfold dur_of_ms, ms_of, two64z, two63z in *.
+  assert (E : (d = (d / 1000000) * 1000000)%Z) by (pose proof (Z.div_mod d 1000000); lia).
+  set (q := (d / 1000000)%Z) in *. clearbody q.
+  assert (Hq : Z.quot d 1000000 = q) by (rewrite E; apply Z.quot_mul; lia).
   rewrite Hq.
-  assert (Hd : (0 <= d / 1000000 < 9223372036854775808)%Z) by (split; [apply Z.div_pos; lia|apply Z.div_lt_upper_bound; lia]).
-  rewrite Z.mod_small by lia.
-  rewrite to_int_small by lia. rewrite Z2N.id by lia.
-  assert (E : (d / 1000000 * 1000000 = d)%Z) by (pose proof (Z.div_mod d 1000000); lia).
-  rewrite E. unfold wrap_int, two63z, two64z. rewrite Z.mod_small by lia. lia.
+  assert (Hwrap : wrap_int (q * 1000000) = (q * 1000000)%Z) by (unfold wrap_int, two63z, two64z; rewrite Z.mod_small by lia; lia).
+  destruct (Z_lt_le_dec q 0) as [Hn|Hp].
+  - assert (Hmod : (q mod 18446744073709551616 = q + 18446744073709551616)%Z).
+    { symmetry. apply (Z.mod_unique q 18446744073709551616 (-1)); lia. }
+    rewrite Hmod. unfold to_int.
+    replace (Z.to_N (q + 18446744073709551616) <? 9223372036854775808)%N with false by (symmetry; apply N.ltb_ge; lia).
+    unfold two64, two64z. rewrite N.mod_small by lia. rewrite Z2N.id by lia.
+    replace (q + 18446744073709551616 - 18446744073709551616)%Z with q by lia. rewrite Hwrap. lia.
+  - rewrite Z.mod_small by lia. rewrite to_int_small by lia. rewrite Z2N.id by lia. rewrite Hwrap. lia.
 Qed.
 Lemma ms_of_bound d : (ms_of d < two64)%N.
 Proof. unfold ms_of, two64, two64z. pose proof (Z.mod_pos_bound (Z.quot d 1000000) 18446744073709551616). lia. Qed.
